@@ -17,7 +17,7 @@ if not d.endswith("-a") and os.path.exists("/tmp/used_sites.json"):  # rounds b,
           "\n\nGo for the less central parts of what the property covers: secondary functions named in the anchors, in-place (`&mut self`) twins, by-reference operand forms and trait impls for `&T`, "
           "one particular vector size or kind (Vec8..Vec64, Extent, Rgb/Rgba, Uv/Uvw - enable cargo features as needed and say so), one matrix size or layout, conversions between types, "
           "clamped vs unclamped / precise vs fast variants, deprecated aliases, degenerate-input branches, behaviour that only differs after a *sequence* of calls.\n")
-        if d.endswith("-c") or d.endswith("-d") or d.endswith("-e"):
+        if d.endswith("-c") or d.endswith("-d") or d.endswith("-e") or d.endswith("-f"):
             extra+=("\nFor this round, make A and B come from two DIFFERENT categories of this list (say which): "
               "(1) a value-dependent shortcut - a fast path, early return, epsilon/threshold guard, clamp, saturating or sign-dependent branch that is right for ordinary values and wrong for some (zero, negative, tiny, huge, equal, NaN/inf where the statement covers them); "
               "(2) a numerically different but algebraically 'equivalent' rewrite that loses accuracy or overflows/underflows only for particular magnitudes or operand relations; "
@@ -30,7 +30,11 @@ if not d.endswith("-a") and os.path.exists("/tmp/used_sites.json"):  # rounds b,
               "(list the candidate functions first, cross off the ones above, then choose).  Favour slips that need a CONJUNCTION of two unusual conditions (a particular lane AND a particular sign; "
               "a degenerate operand AND the in-place form; one layout AND one argument order; a value next to a threshold AND a particular element type), and slips whose effect is SMALL "
               "(an off-by-one-ulp or off-by-one-unit result, a boundary treated as open instead of closed, a result that is right except exactly at a tie).\n")
-        if d.endswith("-e"):
+        if d.endswith("-f"):
+            extra+=("\nThis is the sixth round, and you only need to deliver change A (skip B entirely: no B.diff, B_demo.rs, B.md).  Go through the property STATEMENT phrase by phrase and through its quantifier text, "
+              "and pick the phrase, operand form, element type, vector kind/size, matrix layout, cargo feature or build profile (e.g. behaviour that differs between debug and release builds) that you judge LEAST likely to be exercised by an "
+              "automated checker that was written from this same statement - then break exactly that, as locally as possible.  Explain in A.md why you think a checker would overlook it.\n")
+        if d.endswith("-e") or d.endswith("-f"):
             extra+=("\nThis is the fifth round.  Everything above is taken, and single-site slips in the functions named by the anchors are largely exhausted.  Look instead at: "
               "code OUTSIDE the anchored functions that they depend on (private helpers, trait impls in src/ops.rs or src/vec.rs that the anchored code calls, `From`/`Into` conversions used internally, "
               "`Default`/`Zero`/`One` impls, macros' rarely-used arms); behaviour that depends on the HISTORY of a value (a second call, an in-place mutation followed by a read, a value that went through a conversion first); "
